@@ -1304,6 +1304,14 @@ def check_c02(pid, tier, build, props):
                             "%d of %d calls the pipeline makes, first: %r"
                             % (what, tt["calls_compared"] - tt["totality_precondition_met"], tt["calls_compared"],
                                tt["totality_precondition_unmet_examples"][:1]))
+    # ... and the hypotheses of the universal PATH theorems (Props/C01.v: C01_region_extraction_preserves_paths_b,
+    # C01_header_unification_any_level_preserves_paths_b; booleans of Model/Applic.v) on the same calls
+    for what, tt in (("extract_region", xt_), ("insert_block_and_control_blocks", cbt)):
+        if tt.get("path_theorem_hypotheses_unmet_examples"):
+            problems.append("the hypotheses of the universal path theorem for %s (Model/Applic.v) do not hold on "
+                            "%d of %d calls the pipeline makes, first: %r"
+                            % (what, tt["calls_compared"] - tt["path_theorem_hypotheses_met"], tt["calls_compared"],
+                               tt["path_theorem_hypotheses_unmet_examples"][:1]))
     b5 = None
     if tier == "thorough":
         from . import bounded5
